@@ -159,7 +159,7 @@ class Histories(Stream):
             ops = []
             for _ in range(rng.randint(6, 18)):
                 op = rng.choice(["fetch", "fetch", "fetch_track", "diff", "extract", "format", "clone", "show", "arg", "pickle", "deepcopy",
-                                 "shallow_edit", "result_edit", "deep_edit", "resolve", "repeat", "repeat", "parse_reg", "include_scope", "fetch_other", "fetch_track"])
+                                 "shallow_edit", "result_edit", "deep_edit", "resolve", "repeat", "repeat", "parse_reg", "include_scope", "fetch_other", "fetch_track", "index_reset"])
                 ops.append([op, rng.randrange(1 << 30)])
             yield {"master": master, "sources": sources, "ops": ops}
 
@@ -261,6 +261,17 @@ class Histories(Stream):
                     p = self.check_links(cp, orig)
                     if p:
                         problems.append("%s copy of %s: %s" % (op, key, p))
+                    # a copy taken of an object INSIDE the tree keeps its place: same full path, same variable resolution
+                    inner = [o for o in orig.objects if o.is_scope and o.objects]
+                    if inner:
+                        sc = rr.choice(inner)
+                        for o in (sc, rr.choice(sc.objects)):
+                            c2 = pickle.loads(pickle.dumps(o)) if op == "pickle" else copy.deepcopy(o)
+                            if (c2.full_path(), c2.as_str(attributes_level=3)) != (o.full_path(), o.as_str(attributes_level=3)):
+                                problems.append("%s copy of the nested object %s of %s: full path %r, prints differently: %s" % (
+                                    op, o.full_path(), key, c2.full_path(), c2.as_str(attributes_level=3) != o.as_str(attributes_level=3)))
+                            elif safe(lambda: c2.resolve_variables().as_str()) != safe(lambda: o.resolve_variables().as_str()):
+                                problems.append("%s copy of the nested object %s of %s resolves its variables differently" % (op, o.full_path(), key))
                     def behaviour(m, srcs):
                         def f():
                             r = m.fetch(sources=srcs)
@@ -320,6 +331,27 @@ class Histories(Stream):
                         finally:
                             _sys.modules.pop("c17_shared_scope_mod", None)
                     run(op, f)
+                elif op == "index_reset":
+                    # the GUI index works on master.fetch(); resetting a scope of ITS working parameters in place must not reach
+                    # what master.fetch() returns afterwards (no result of fetch is shared between callers)
+                    def f():
+                        from freephil import interface
+                        m2 = fp.parse(case["master"])        # a master of its own: the index fills in captions on the tree it is given
+                        before = m2.fetch().as_str()
+                        try:
+                            idx = interface.index(master_phil=m2)
+                        except Exception:  # noqa  (an untyped definition: the index refuses the master)
+                            return "index-not-applicable"
+                        names = [o.name for o in m2.objects if o.is_scope and not o.is_disabled and not o.multiple]
+                        if names:
+                            idx.reset_scope(names[0])
+                        after = m2.fetch().as_str()
+                        same = m2.fetch(sources=[]).as_str()
+                        return [before == after, after == same]
+                    r = run(op, f)
+                    if r[0] == "ok" and isinstance(r[1], list) and r[1] != [True, True]:
+                        problems.append("after index(master).reset_scope(...) master.fetch() %s" % (
+                            "changed" if not r[1][0] else "differs from master.fetch(sources=[])"))
                 elif op == "parse_reg":
                     # the same text parsed with one of two converter registries that bind one type name to different
                     # converters (and, half of the time, kept alive): the result depends on the arguments only
